@@ -30,6 +30,7 @@ import (
 	"fmt"
 	"io"
 	"net/http"
+	"os"
 	"sort"
 	"strings"
 	"sync"
@@ -39,6 +40,7 @@ import (
 	"github.com/coreos/go-semver/semver"
 	"github.com/tikv/pd/server/config"
 	"github.com/tikv/pd/server/core"
+	"github.com/tikv/pd/server/kv"
 	"github.com/tikv/pd/server/schedule/placement"
 	"pdverif/livesrv"
 	"pdverif/vkit"
@@ -51,6 +53,7 @@ const (
 	findingReplModeHTTP  = "C18/replication-mode-http-merge-into-served"
 	findingRuleLabels    = "C18/replication-rule-labels-not-rolled-back"
 	findingEmptyLabels   = "C18/replication-empty-labels-nil-vs-empty"
+	findingCoordStale    = "C18/coordinator-writeback-stale-persist"
 )
 
 func TestMain(m *testing.M)   { vkit.Main(m, "C18") }
@@ -59,6 +62,7 @@ func TestReplay(t *testing.T) { defer livesrv.Shutdown(); vkit.RunReplay(t) }
 
 func init() {
 	vkit.Register("config", vkit.N{Quick: 12000, Thorough: 300000}, genCase, runCase)
+	vkit.Register("startup", vkit.N{Quick: 12, Thorough: 320}, genStart, runStart)
 }
 
 // ---------------------------------------------------------------- case data
@@ -211,33 +215,37 @@ type Case struct {
 	Ops []Op `json:"ops"`
 }
 
+func genOp(t *rapid.T) Op {
+	var op Op
+	op.Kind = rapid.SampledFrom([]string{"schedule", "schedule", "schedule", "replication", "replication", "replication",
+		"pdserver", "pdserver", "replmode", "labelset", "labelset", "labeldel", "labeldel", "labelcfg", "version"}).Draw(t, "kind")
+	switch op.Kind {
+	case "schedule":
+		op.P = rapid.IntRange(0, len(schedulePatches)-1).Draw(t, "p")
+	case "replication":
+		op.P = rapid.IntRange(0, len(replicationPatches)-1).Draw(t, "p")
+	case "pdserver":
+		op.P = rapid.IntRange(0, len(pdServerPatches)-1).Draw(t, "p")
+	case "replmode":
+		op.P = rapid.IntRange(0, len(replModePatches)-1).Draw(t, "p")
+	case "labelcfg":
+		op.P = rapid.IntRange(0, len(labelCfgs)-1).Draw(t, "p")
+	case "version":
+		op.P = rapid.IntRange(0, len(versions)-1).Draw(t, "p")
+	default:
+		op.L = [3]int{rapid.IntRange(0, len(labelTypes)-1).Draw(t, "lt"), rapid.IntRange(0, len(labelKeys)-1).Draw(t, "lk"),
+			rapid.IntRange(0, len(labelValues)-1).Draw(t, "lv")}
+	}
+	op.Faults = rapid.IntRange(0, 1).Draw(t, "faults") == 1
+	op.HTTP = rapid.IntRange(0, 3).Draw(t, "http") == 3
+	return op
+}
+
 func genCase(t *rapid.T) Case {
 	var c Case
 	n := rapid.IntRange(3, 14).Draw(t, "ops")
 	for i := 0; i < n; i++ {
-		var op Op
-		op.Kind = rapid.SampledFrom([]string{"schedule", "schedule", "schedule", "replication", "replication", "replication",
-			"pdserver", "pdserver", "replmode", "labelset", "labelset", "labeldel", "labeldel", "labelcfg", "version"}).Draw(t, "kind")
-		switch op.Kind {
-		case "schedule":
-			op.P = rapid.IntRange(0, len(schedulePatches)-1).Draw(t, "p")
-		case "replication":
-			op.P = rapid.IntRange(0, len(replicationPatches)-1).Draw(t, "p")
-		case "pdserver":
-			op.P = rapid.IntRange(0, len(pdServerPatches)-1).Draw(t, "p")
-		case "replmode":
-			op.P = rapid.IntRange(0, len(replModePatches)-1).Draw(t, "p")
-		case "labelcfg":
-			op.P = rapid.IntRange(0, len(labelCfgs)-1).Draw(t, "p")
-		case "version":
-			op.P = rapid.IntRange(0, len(versions)-1).Draw(t, "p")
-		default:
-			op.L = [3]int{rapid.IntRange(0, len(labelTypes)-1).Draw(t, "lt"), rapid.IntRange(0, len(labelKeys)-1).Draw(t, "lk"),
-				rapid.IntRange(0, len(labelValues)-1).Draw(t, "lv")}
-		}
-		op.Faults = rapid.IntRange(0, 1).Draw(t, "faults") == 1
-		op.HTTP = rapid.IntRange(0, 3).Draw(t, "http") == 3
-		c.Ops = append(c.Ops, op)
+		c.Ops = append(c.Ops, genOp(t))
 	}
 	return c
 }
@@ -354,13 +362,15 @@ func normalise(fx *livesrv.Fixture) snap {
 }
 
 // reloaded is what a newly elected leader serves: pristine defaults + Reload.
-func reloaded(w *faultkv.KV) (snap, error) {
+func reloaded(w *faultkv.KV) (snap, error) { return reloadedFrom(w.Base()) }
+
+func reloadedFrom(base kv.Base) (snap, error) {
 	def := config.NewConfig()
 	if err := def.Adjust(nil, false); err != nil {
 		return snap{}, fmt.Errorf("default config: %v", err)
 	}
 	o := config.NewPersistOptions(def)
-	if err := o.Reload(core.NewStorage(w.Base())); err != nil {
+	if err := o.Reload(core.NewStorage(base)); err != nil {
 		return snap{}, fmt.Errorf("Reload: %v", err)
 	}
 	return snap{mustJSON(o.GetScheduleConfig().Clone()), mustJSON(o.GetReplicationConfig()), mustJSON(o.GetPDServerConfig()),
@@ -1074,4 +1084,267 @@ func TestFinding_replication_empty_labels_nil_vs_empty(t *testing.T) {
 	fx.ResetConfig(w)
 	vkit.Finding(t, findingEmptyLabels, e != nil && strings.Contains(e.Error(), msgRuleInconsistent),
 		fmt.Sprintf("replication section %s, default rule %v; SetReplicationConfig(max-replicas 5): err=%v", mustJSON(s.GetReplicationConfig()), r0, e))
+}
+
+// ---------------------------------------------------------------- leader start-up on a cluster with regions
+//
+// "startup": the raft cluster is restarted the way the leader callback does it (RaftCluster.Start), on a
+// cluster whose region was loaded from storage and has not reported yet, so the new coordinator waits
+// before it starts its schedulers — and when it does it writes the WHOLE schedule section back
+// (coordinator.run: SetScheduleConfig(clone) + Persist). Generated updates are applied (a) during the
+// wait, (b) optionally while coordinator.run is parked at the storage write of that write-back, (c)
+// after the schedulers run. Oracle as for "config": an accepted update is served and is what a fresh
+// Reload returns, whatever the coordinator did in between; a rejected one changes nothing. In this
+// property the server's storage is the cluster-level (etcd) storage, as on a real leader.
+
+type StartCase struct {
+	During []Op `json:"during"`           // applied while the coordinator waits for region heartbeats
+	Park   bool `json:"park,omitempty"`   // park coordinator.run at the Save of its write-back Persist ...
+	Parked []Op `json:"parked,omitempty"` // ... and apply these meanwhile
+	After  []Op `json:"after,omitempty"`
+}
+
+func genStart(t *rapid.T) StartCase {
+	var c StartCase
+	plain := func() Op { op := genOp(t); op.Faults = false; return op }
+	for i, n := 0, rapid.IntRange(1, 4).Draw(t, "during"); i < n; i++ {
+		op := plain()
+		if i == 0 && rapid.IntRange(0, 1).Draw(t, "scheduleFirst") == 0 {
+			// make an ACCEPTED schedule update during the wait frequent
+			op = Op{Kind: "schedule", P: rapid.IntRange(0, 19).Draw(t, "validSchedule")}
+		}
+		c.During = append(c.During, op)
+	}
+	c.Park = rapid.IntRange(0, 1).Draw(t, "park") == 1
+	if c.Park {
+		for i, n := 0, rapid.IntRange(1, 2).Draw(t, "parked"); i < n; i++ {
+			c.Parked = append(c.Parked, plain())
+		}
+	}
+	for i, n := 0, rapid.IntRange(0, 2).Draw(t, "after"); i < n; i++ {
+		c.After = append(c.After, plain())
+	}
+	return c
+}
+
+// applyChecked executes one update without faults and checks it like the "config" property does.
+func applyChecked(fx *livesrv.Fixture, op Op, where string) (accepted bool, err error) {
+	op.Faults = false
+	p, perr := prepare(fx, op)
+	if perr != nil {
+		return false, fmt.Errorf("harness: %s %+v cannot be prepared: %v", where, op, perr)
+	}
+	where += " " + p.desc
+	before := served(fx)
+	cerr := p.call()
+	after := served(fx)
+	if cerr != nil {
+		if d := diffSnap(before, after); d != "" {
+			return false, vkit.Errf("%s was rejected (%v) but the served configuration changed: %s", where, cerr, d)
+		}
+		return false, nil
+	}
+	if p.verdict == vReject {
+		return true, vkit.Errf("%s was accepted although %s", where, p.why)
+	}
+	for i := range after {
+		if i == p.section {
+			if p.wantJSON != "" && after[i] != p.wantJSON {
+				return true, vkit.Errf("%s accepted but section %s serves %s, requested %s", where, sectionNames[i], after[i], p.wantJSON)
+			}
+		} else if after[i] != before[i] {
+			return true, vkit.Errf("%s accepted and changed another section, %s: %s => %s", where, sectionNames[i], before[i], after[i])
+		}
+	}
+	return true, nil
+}
+
+func durable(fx *livesrv.Fixture, where string) error {
+	got, err := reloadedFrom(fx.ClusterBase())
+	if err != nil {
+		return vkit.Errf("%s: %v", where, err)
+	}
+	if d := diffSnap(normalise(fx), got); d != "" {
+		return vkit.Errf("%s: a fresh Reload differs from the served configuration (served, normalised => reloaded): %s", where, d)
+	}
+	return nil
+}
+
+func runStart(c StartCase) (vkit.Info, error) {
+	info, err := runStartOnce(c)
+	if err == nil {
+		return info, nil
+	}
+	// the coordinator is a background goroutine: report only what shows again
+	info2, err2 := runStartOnce(c)
+	if err2 == nil {
+		info2.Inconclusive = true
+		info2.Class("violation-not-reproduced")
+		return info2, nil
+	}
+	return info, err
+}
+
+func runStartOnce(c StartCase) (info vkit.Info, err error) {
+	fx := livesrv.MustGet()
+	if !fx.Healthy() {
+		livesrv.Fatal("C18: server lost leadership / cluster stopped")
+	}
+	fx.RestoreStorage() // the cluster-level storage is the server's storage here
+	if e := fx.ResetConfig(nil); e != nil {
+		livesrv.Fatal("C18: cannot reset the configuration to the base: " + e.Error())
+	}
+	if e := fx.Svr.GetPersistOptions().Persist(core.NewStorage(fx.ClusterBase())); e != nil {
+		livesrv.Fatal("C18: cannot persist the base configuration: " + e.Error())
+	}
+	park := c.Park
+	if park && vkit.Known(findingCoordStale) {
+		// known class: an update accepted while coordinator.run is between its snapshot and its write-back
+		info.Exclude(findingCoordStale)
+		info.Class("known:park-at-write-back-skipped")
+		park = false
+	}
+	parked, release := make(chan struct{}), make(chan struct{})
+	var once, relOnce sync.Once
+	doRelease := func() { relOnce.Do(func() { close(release) }) }
+	if park {
+		fx.ClusterGateAll(func(kind, key string) error {
+			if kind == "save" && key == "config" && livesrv.OnCoordinatorRun() {
+				once.Do(func() { close(parked) })
+				select {
+				case <-release:
+				case <-time.After(40 * time.Second):
+				}
+			}
+			return nil
+		})
+	}
+	// whatever happens, leave the fixture with a started coordinator and no gate
+	defer func() {
+		doRelease()
+		fx.HeartbeatBootstrapRegion()
+		werr := fx.WaitCoordinator(30 * time.Second)
+		fx.ClusterGateAll(nil)
+		if werr != nil {
+			livesrv.Fatal("C18: " + werr.Error())
+		}
+	}()
+	if e := fx.RestartCluster(); e != nil {
+		livesrv.Fatal("C18: " + e.Error())
+	}
+	if !livesrv.CoordinatorStarting() {
+		info.Inconclusive = true
+		info.Class("coordinator-did-not-wait")
+		return info, nil
+	}
+	accepted := 0
+	for i, op := range c.During {
+		ok, e := applyChecked(fx, op, fmt.Sprintf("while the coordinator waits, update %d", i))
+		if e != nil {
+			return info, e
+		}
+		if ok {
+			accepted++
+			info.ClassIf(op.Kind == "schedule", "schedule-update-during-wait")
+			if e := durable(fx, fmt.Sprintf("while the coordinator waits, after accepted update %d", i)); e != nil {
+				return info, e
+			}
+		}
+	}
+	if !livesrv.CoordinatorStarting() {
+		info.Inconclusive = true
+		info.Class("coordinator-did-not-wait")
+		return info, nil
+	}
+	last := served(fx)
+	if e := fx.HeartbeatBootstrapRegion(); e != nil {
+		info.Inconclusive = true
+		info.Class("heartbeat-error")
+		return info, nil
+	}
+	if park {
+		select {
+		case <-parked:
+		case <-time.After(20 * time.Second):
+			info.Inconclusive = true
+			info.Class("coordinator-not-parked")
+			return info, nil
+		}
+		// the coordinator has put its snapshot of the schedule section back and is about to persist
+		if d := diffSnap(last, served(fx)); d != "" {
+			return info, vkit.Errf("the coordinator, about to persist the schedule configuration, changed what is served: %s", d)
+		}
+		for i, op := range c.Parked {
+			ok, e := applyChecked(fx, op, fmt.Sprintf("while coordinator.run is parked at its write-back, update %d", i))
+			if e != nil {
+				return info, e
+			}
+			if ok {
+				accepted++
+				info.Class("update-during-write-back")
+			}
+		}
+		last = served(fx)
+		doRelease()
+	}
+	if e := fx.WaitCoordinator(20 * time.Second); e != nil {
+		info.Inconclusive = true
+		info.Class("coordinator-slow")
+		return info, nil
+	}
+	if d := diffSnap(last, served(fx)); d != "" {
+		return info, vkit.Errf("after %d accepted update(s) the coordinator started its schedulers and the served configuration changed: %s", accepted, d)
+	}
+	if e := durable(fx, "after the coordinator started its schedulers"); e != nil {
+		return info, e
+	}
+	for i, op := range c.After {
+		ok, e := applyChecked(fx, op, fmt.Sprintf("after the coordinator started, update %d", i))
+		if e != nil {
+			return info, e
+		}
+		if ok {
+			accepted++
+			if e := durable(fx, fmt.Sprintf("after the coordinator started, after accepted update %d", i)); e != nil {
+				return info, e
+			}
+		}
+	}
+	info.ClassIf(park, "parked-at-write-back")
+	info.NonTrivial = accepted >= 1
+	return info, nil
+}
+
+// TestFinding_coordinator_writeback_stale_persist: coordinator.run ends with
+// opt.SetScheduleConfig(snapshot) + opt.Persist(storage); Persist marshals the whole configuration and
+// then saves it. An update accepted (served and persisted) while coordinator.run is parked at that Save is
+// overwritten in storage by the older image: the server keeps serving the update, a new leader reloads the
+// configuration from before it.
+func TestFinding_coordinator_writeback_stale_persist(t *testing.T) {
+	defer livesrv.Shutdown()
+	fx, err := livesrv.Get()
+	if err != nil {
+		t.Logf("fixture did not start: %v", err)
+		return
+	}
+	c := StartCase{During: []Op{{Kind: "version", P: 0}}, Park: true, Parked: []Op{{Kind: "schedule", P: 0}}}
+	saved := os.Getenv("VERIF_KNOWN")
+	os.Setenv("VERIF_KNOWN", "") // the probe must run the parked scenario even while the class is excluded
+	info, rerr := runStartOnce(c)
+	os.Setenv("VERIF_KNOWN", saved)
+	if info.Inconclusive {
+		t.Logf("probe undecided: %v", info.Classes)
+		return
+	}
+	_ = fx
+	detail := "restart of the raft cluster, region heartbeat, coordinator.run parked at the Save of its write-back Persist, SetScheduleConfig(max-snapshot-count 5) accepted meanwhile, coordinator released: "
+	if rerr != nil {
+		detail += rerr.Error()
+		if len(detail) > 700 {
+			detail = detail[:700]
+		}
+	} else {
+		detail += "served and reloaded configuration agree"
+	}
+	vkit.Finding(t, findingCoordStale, rerr != nil && strings.Contains(rerr.Error(), "fresh Reload differs"), detail)
 }
